@@ -326,7 +326,9 @@ func (g *gcState) pullWalk(rn, tg, how string) {
 					cr = g.do("GET", "/v2/"+rn+"/manifests/"+c.Digest, nil, hdr("Accept", acceptAll))
 				}
 				if cr.code != 200 || !hashesTo(c.Digest, cr.body) {
-					g.fail("tagged-image-not-pullable", "after collection (%s): pull of tag %s/%s: child %s of %s answers %d (asBlob=%v)", how, rn, tg, short(c.Digest), path, cr.code, asBlob)
+					ij, _ := g.srv.VerifIndexJSON(rn)
+					bl, _ := g.srv.VerifBlobList(rn)
+					g.fail("tagged-image-not-pullable", "after collection (%s): pull of tag %s/%s: child %s of %s answers %d %s (asBlob=%v)\nindex of the store: %s\nblobs: %v", how, rn, tg, short(c.Digest), path, cr.code, trunc(cr.body, 160), asBlob, trunc(ij, 3000), shortList(bl))
 				}
 				if isIndexType(c.MediaType) || isImageType(c.MediaType) {
 					walk(cr.body, c.MediaType, path+">"+short(c.Digest), depth+1)
@@ -510,6 +512,20 @@ func (g *gcState) opPushManifest(t *rapid.T) {
 	}
 	_, again := mr.blobs[p.digest]
 	g.acceptManifest(p)
+	// finding 12, another face: a child is known to the store only through what its parents say about it. A digest
+	// that some index of this repository lists under another media type (it was an opaque blob when that index was
+	// pushed) is served under either type depending on which parent the last index reload met first.
+	for _, o := range mr.everMans {
+		if !o.isIndex {
+			continue
+		}
+		for i, c := range o.refs {
+			if c == p.digest && i < len(o.refMT) && o.refMT[i] != mm.mt {
+				mr.markFuzzy(p.digest)
+				g.class("digest-listed-under-two-types")
+			}
+		}
+	}
 	// an acknowledged push is a recent push, whether or not the bytes were stored before
 	g.touchAges()
 	if again && g.age[rn][p.digest] > 0 {
